@@ -2,7 +2,11 @@
    Every todo!/unreachable!/unwrap/panic! site on a modelled path is an outcome [Panic site] of
    the model; the theorems show that none is reachable when the inventory is rendered:
    Proofs/NoPanic.v (interpreter), Proofs/YamlFacts.v (conversion of file contents),
-   Proofs/NodeFacts.v (include walk and node rendering), Proofs/ParserFacts.v (parser).
+   Proofs/NodeFacts.v (include walk and node rendering), Proofs/ParserFacts.v (parser); and that
+   rendering a node always returns: Proofs/NodeTotal.v (with Proofs/Termination.v) shows that
+   render_node yields one and the same value or error from some fuels on, for every include
+   graph (cyclic ones included) and every reference graph -- fuel being the model's only bound on
+   call depth, this is "never fails to return" for the modelled code.
    Domain of the rendering theorems: files whose mapping keys are scalars with at most one
    marker, distinct after stripping ("clean"); other shapes (container keys, double markers)
    are exercised by the crash-freedom runs of the check, where conversion and rendering return
@@ -10,7 +14,8 @@
    PARTIAL (DESIGN section 7): byte-level YAML parsing, file-system faults and stack exhaustion
    live in libraries and the runtime; no Gallina model exhibits them; they are covered by the
    correspondence / crash-freedom runs only. *)
-From RV Require Import Model.Node Proofs.MappingFacts Proofs.WfFacts Proofs.NoPanic Proofs.YamlFacts Proofs.NodeFacts Proofs.ParserFacts.
+From RV Require Import Model.Node Proofs.MappingFacts Proofs.WfFacts Proofs.NoPanic Proofs.YamlFacts Proofs.NodeFacts Proofs.ParserFacts
+     Proofs.NodeTotal.
 
 (** Converting the content of an inventory file never panics (tagged values and a mapping that
     overwrites its own constant key are errors). *)
@@ -49,6 +54,20 @@ Theorem C11_render_node_never_panics :
     render_node f fi cfg root ntbl ctbl name <> Panic s.
 Proof. exact render_node_no_panic. Qed.
 Eval cbv in "ASSUMPTIONS-OF C11_render_node_never_panics"%string. Print Assumptions C11_render_node_never_panics.
+
+(** ... and it always returns: from some fuels on (include depth, interpreter) render_node
+    yields one and the same outcome, and the outcome is a value or an error -- for every include
+    graph, cyclic ones included, and whatever the include names and parameters refer to.
+    ([loc_ok]: class locations are paths of non-empty segments without leading dots, which is
+    what discovery produces.) *)
+Theorem C11_render_node_always_returns :
+  forall cfg root ntbl ctbl name,
+    clean_table ctbl -> Forall (fun ce => loc_ok (ce_loc ce)) ctbl ->
+    Forall (fun ne => clean_doc (ne_doc ne)) ntbl ->
+    exists f0 fi0 r, (forall f fi, f0 <= f -> fi0 <= fi -> render_node f fi cfg root ntbl ctbl name = r) /\
+                     ((exists v, r = Ok v) \/ (exists e, r = Err e)).
+Proof. exact render_node_total. Qed.
+Eval cbv in "ASSUMPTIONS-OF C11_render_node_always_returns"%string. Print Assumptions C11_render_node_always_returns.
 
 (** The reference parser terminates on every string. *)
 Theorem C11_parser_terminates : forall s, parse_ref s <> PFuel.
